@@ -197,7 +197,7 @@ def r5(ctx):
     if not need(ctx, P, rule, "Hypercore::new: branch on options.open", so):
         return
     b, o, tr, fl = so[0]
-    sk = [x for x in bool_switches(fa, lambda o: o[0] == "call" and o[2].endswith("::is_some") and path_of(strip(o[3][0])) == "options.key_pair") if fa.dominates(tr, x[0])]
+    sk = [x for x in bool_switches(fa, lambda o: o[0] == "call" and o[2].endswith("::is_some") and path_of(strip(o[3][0])) == "options.key_pair") if any(fa.dominates(x_[2], x[0]) for x_ in so)]
     oo = sites(fa, OPLOG_OPEN)
     if not (need(ctx, P, rule, "Hypercore::new: options.key_pair.is_some() under open", sk) and need(ctx, P, rule, "Hypercore::new: Oplog::open calls", oo)):
         return
@@ -219,7 +219,8 @@ def r5(ctx):
         for si, st in enumerate(fa.blocks[bb].stmts):
             if st["k"] == "assign" and st["rv"]["k"] == "agg" and st["rv"].get("variant") == "None" and "PartialKeypair" in fa.body.local_ty(st["place"]["l"]):
                 nones.append(bb)
-    ctx.check(P, rule, "the None key pair belongs to the open branch", nones and all(fa.dominates(tr, x) for x in nones), "None assigned only under options.open", "None key pair assigned outside the open branch")
+    open_edges = [x[2] for x in so]   # `options.open` may be tested more than once (guard clause, then the value)
+    ctx.check(P, rule, "the None key pair belongs to the open branch", nones and all(any(fa.dominates(e_, x) for e_ in open_edges) for x in nones), "None assigned only under options.open", "None key pair assigned outside the open branch")
 
 
 def r6(ctx, P=P, rule="C12.R6"):
